@@ -15,7 +15,7 @@ sch=json.load(open('/root/.vp/EVIDENCE.schema.json'))
 for f in sorted(glob.glob('/verif/evidence/C*.json')):
     e=json.load(open(f)); jsonschema.validate(e, sch)
     c=e['coverage']
-    assert c['obligations']==c['discharged'], (f, c['obligations'], c['discharged'])
+    if e['level']=='proof': assert c['obligations']==c['discharged'], (f, c['obligations'], c['discharged'])
 print('evidence valid')
 jsonschema.validate(json.load(open('/verif/MANIFEST.json')), json.load(open('/root/.vp/MANIFEST.schema.json')))
 print('manifest valid')
